@@ -641,7 +641,9 @@ void mmd_export_image_opendocument(DString * out, const char * source, token * t
 
 			printf(">\n<draw:image xlink:href=\"Pictures/%s\"", a->asset_path);
 		} else {
-			printf(">\n<draw:image xlink:href=\"%s\"", link->url);
+			print_const(">\n<draw:image xlink:href=\"");
+			mmd_print_string_opendocument(out, link->url, false);
+			print_const("\"");
 		}
 	}
 
